@@ -116,6 +116,11 @@ class Check:
         self.known = [f for f in load_known_findings() if f["property"] == pid]
         os.makedirs(os.path.join(VERIF, "evidence"), exist_ok=True)
         os.makedirs(os.path.join(VERIF, "replays"), exist_ok=True)
+        # one run per property at a time: Generated.v, the .vo files and the extracted runner of a property are shared
+        # by every run (possibly against different VERIF_REPO checkouts); held until the process exits
+        if os.path.isdir(self.dir) and os.environ.get("VERIF_NO_RUNLOCK") != "1":
+            self._runlock = open(os.path.join(self.dir, ".runlock"), "w")
+            fcntl.flock(self._runlock, fcntl.LOCK_EX)
 
     # -- counters -------------------------------------------------------------
     def count(self, key, n=1):
